@@ -178,6 +178,20 @@ def ref_eval(spec, o, env=None):
         if spec[3:]:
             return ref_eval(spec[3], o, env)
         raise RefFail("nobranch", None)
+    if t == "casefork":
+        # stem = case(d).when(p1, x); v1 = stem.when(p2, y); v2 = stem.otherwise(w): evaluates to (v1 or 'nomatch', v2, stem or 'nomatch')
+        _, disp, (p1, x), (p2, y), w = spec
+        d = ref_eval(disp, o, env)
+
+        def run(cases, dflt):
+            for pred, r in cases:
+                if _pred(pred, d, o, env):
+                    return ref_eval(r, o, env)
+            if dflt is not None:
+                return ref_eval(dflt, o, env)
+            return "nomatch"
+
+        return (run([(p1, x), (p2, y)], None), run([(p1, x)], w), run([(p1, x)], None))
     if t == "coalesce":
         last = None
         for m in spec[1]:
@@ -228,8 +242,10 @@ def ref_eval(spec, o, env=None):
 
 def _ref_ds(spec, o, env):
     _, name, args, ex = spec
-    o1 = ref_overlay(ex.get("default_options", {}), o) if ex.get("default_options") else o
-    o2 = ref_overlay(o1, ex["options"]) if ex.get("options") else o1
+    dflt = ref_overlay(ex.get("default_options", {}), ex.get("derive_default", {}))
+    pre = ref_overlay(ex.get("options", {}), ex.get("derive", {}))
+    o1 = ref_overlay(dflt, o) if dflt else o
+    o2 = ref_overlay(o1, pre) if pre else o1
     impl = ("body", name, args, ex.get("kind", "tup"))
     if "dispatch" in ex:
         disp = ex["dispatch"]
@@ -356,6 +372,10 @@ def build(spec, env):
             d = factory(fn, defaults={"a%d" % i: b(a) for i, a in enumerate(args)}, **kw)
             for alias, impl in ex.get("overloads", {}).items():
                 d.register(alias, b(impl))
+            if ex.get("derive"):
+                d = d.with_options(_deep(ex["derive"]))          # a derived dataset, built while the graph is constructed
+            if ex.get("derive_default"):
+                d = d.with_default_options(_deep(ex["derive_default"]))
             env.nodes[name] = d
             return d
         if t == "switch":
@@ -367,6 +387,12 @@ def build(spec, env):
             for pred, r in s[2]:
                 c = c.when(_mk_pred(pred, env), b(r))
             return c.otherwise(b(s[3])) if s[3:] else c
+        if t == "casefork":
+            _, disp, (p1, x), (p2, y), w = s
+            stem = case(b(disp)).when(_mk_pred(p1, env), b(x))
+            v1 = stem.when(_mk_pred(p2, env), b(y))
+            v2 = stem.otherwise(b(w))
+            return evaluatable_tuple(coalesce(v1, labrea.Value("nomatch")), v2, coalesce(stem, labrea.Value("nomatch")))
         if t == "coalesce":
             return coalesce(*[b(m) for m in s[1]])
         if t == "apply":
@@ -530,7 +556,7 @@ def _mk_pred(pred, env):
 
 # ---------------------------------------------------------------------------------------------------------
 # all spec nodes / callable names of a spec (for fault plans and laziness bookkeeping)
-_TAGS = {"const", "opt", "optdom", "optdome", "ds", "switch", "case", "coalesce", "apply", "applyopt", "bind", "list", "tuple",
+_TAGS = {"const", "opt", "optdom", "optdome", "casefork", "ds", "switch", "case", "coalesce", "apply", "applyopt", "bind", "list", "tuple",
          "dict", "iter", "rawiter", "map", "template", "with", "cached"}
 
 
